@@ -133,8 +133,21 @@ def trimSuffixHash (s : Str) : Str := if s.getLast? == some '#' then s.dropLast 
 def waitLoginMsg : Str := "while waiting for login prompt '".toList
 def waitMsg : Str := "while waiting for prompt '".toList
 
+/-- `%q` of a piece of device output: besides `"` and `\` the control characters a garbled echo or a
+banner can bring (`\n`, `\r`, `\t`, BEL). -/
+def goQuoteCtl : Str → Str
+  | [] => []
+  | c :: cs =>
+    if c = '"' then '\\' :: '"' :: goQuoteCtl cs
+    else if c = '\\' then '\\' :: '\\' :: goQuoteCtl cs
+    else if c = '\n' then '\\' :: 'n' :: goQuoteCtl cs
+    else if c = '\r' then '\\' :: 'r' :: goQuoteCtl cs
+    else if c = '\t' then '\\' :: 't' :: goQuoteCtl cs
+    else if c = '\x07' then '\\' :: 'a' :: goQuoteCtl cs
+    else c :: goQuoteCtl cs
+
 def wrongName (got want : Str) : Str :=
-  "Wrong device name: \"".toList ++ goQuote got ++ "\", expected: \"".toList ++ goQuote want ++ ['"']
+  "Wrong device name: \"".toList ++ goQuoteCtl got ++ "\", expected: \"".toList ++ goQuoteCtl want ++ ['"']
 
 /-! ## `console.Conn` -/
 
